@@ -335,6 +335,58 @@ mut("mp-addqubit-index", ["C05"], "qlasskit/qcircuit/qcircuit.py", "add_qubit re
     and rewrite_in(t, "QCircuit.add_qubit", lambda n: isinstance(n, ast.AugAssign) and norm(n.target) == "self.num_qubits", lambda n: [n, parse_stmt("self.qubit_map[name] = self.num_qubits")])
 )
 
+# ---- rules added after seeding round h
+mut("h-name-lossy", ["C13"], "qlasskit/qcircuit/exporter_qasm.py", "qubit names rewritten with a lossy string operation before printing")(
+    replace_expr(None, "_selfqc.get_key_by_index(i)", "_selfqc.get_key_by_index(i).replace('.', '_')", limit=99)
+)
+mut("h-round-coarse", ["C09"], "qlasskit/types/qfixed.py", "fixed-point encoder rounds to fewer decimals than the finest fractional bit needs")(
+    replace_stmt("QfixedImp.to_bool", "c_val = self.value", "c_val = round(self.value, 4)")
+)
+mut("h-xor-neg-dropped", ["C02"], "qlasskit/compiler/internalcompiler.py", "negation stripped from a Xor operand and never re-applied")(
+    replace_stmt("InternalCompiler.compile_xor", "qc.x(d)", "")
+)
+mut("h-dest-rebound", ["C06", "C03"], "qlasskit/compiler/internalcompiler.py", "Xor accumulates onto the qubit of one of its own terms")(
+    lambda t: rewrite_in(t, "InternalCompiler.compile_xor", lambda n: isinstance(n, ast.Assign) and norm(n.targets[0]) == "d" and "get_free_ancilla" in norm(n.value), lambda n: [parse_stmt("dest = qc[expr.args[0]] if dest is None else dest"), n])
+)
+mut("h-count-index", ["C14"], "qlasskit/qcircuit/qcircuit.py", "gate list trimmed at a position computed from num_gates")(
+    lambda t: rewrite_in(t, "QCircuit.repeat", lambda n: isinstance(n, ast.Return), lambda n: [parse_stmt("del n_qc.gates[n * self.num_gates:]"), n])
+)
+mut("h-subs-seq", ["C11"], "qlasskit/decompiler/decompiler.py", "control conjunction brought up to date with a sequential subs()")(
+    replace_expr("Decompiler.__exps_of_section", "And(*[exps[ww] for ww in wn[0:-1]])", "And(*wn[0:-1]).subs({ww: exps[ww] for ww in wn[0:-1]})")
+)
+mut("h-involution", ["C14", "C12"], "qlasskit/qcircuit/qcircuitenhanced.py", "peephole drops an entry admitted through the controlled-gate base class")(
+    replace_expr("QCircuitEnhanced.remove_identities", "isinstance(result[-1][0], gates.Barrier)", "isinstance(result[-1][0], gates.QControlledGate)", limit=99)
+)
+mut("h-precedence", ["C07"], "qlasskit/ast2logic/env.py", "initial bindings shadow later definitions while the callee is compressed")(
+    replace_expr("Env.bind_function", "e.xreplace(d_exp)", "e.xreplace({x: initial[x] if x in initial else d_exp[x] for x in e.free_symbols})")
+)
+
+
+@mut("h-len-truthy", ["C17"], "qlasskit/qcircuit/qcircuitwrapper.py", "the wrapper class gets a __len__, so `if qlassf:` depends on the gate count")
+def _m_len(tree):
+    c = find_def(tree, "QCircuitWrapper")
+    c.body.append(parse_stmt("def __len__(self):\n    return self.num_gates"))
+    return 1
+
+
+@mut("h-liveness", ["C04"], "qlasskit/boolopt/bool_optimizer.py", "dead-definition removal kills the defined symbol after adding its uses")
+def _m_live(tree):
+    fn = parse_stmt("def remove_unused(exps):\n    out = []\n    live = set()\n    for s, e in reversed(exps):\n        if s.name[0:4] == '_ret' or s in live:\n            live = (live | e.free_symbols) - {s}\n            out.append((s, e))\n    return out[::-1]")
+    for i, st in enumerate(tree.body):
+        if isinstance(st, ast.Assign) and norm(st.targets[0]) == "fastOptimizer":
+            st.value.args[0].elts.insert(0, ast.Name(id="remove_unused", ctx=ast.Load()))
+            tree.body.insert(i, fn)
+            return 1
+    return 0
+
+
+@mut("h-loop-once", ["C06", "C02"], "qlasskit/compiler/internalcompiler.py", "input test moved to a helper whose loop returns in its first iteration")
+def _m_loop_once(tree):
+    c = find_def(tree, "InternalCompiler")
+    c.body.insert(0, parse_stmt("def is_input_symbol(self, symbol):\n    for name in self.input_symbols:\n        if symbol.name == name:\n            return True\n        return False"))
+    return rewrite_in(tree, "InternalCompiler.compile_symbol", lambda n: isinstance(n, ast.Compare) and norm(n) == "expr.name in self.input_symbols", lambda n: parse_expr("self.is_input_symbol(expr)"))
+
+
 # ---- benign twins: (id, description, edit(root_dir) -> None)
 B = []
 
